@@ -148,31 +148,59 @@ func (h *Hist) govDistrShock() string {
 }
 
 // govPoolShock: governance rewrites the parameters of one amm pool (MsgUpdatePoolParams on the pool's current parameters): the
-// oracle switch is flipped or the swap fee moved.
-func (h *Hist) govPoolShock() string {
+// oracle switch is flipped or the swap fee moved. Half of the time the pool is one in which somebody holds shares that are still
+// under their one-hour commitment lock, and that holder then tries to exit in the next block (returned as a directed tx).
+func (h *Hist) govPoolShock() (string, *histTx) {
 	p := h.std.Pools[h.r.Intn(len(h.std.Pools))]
+	var holder *Acct
 	var pp ammtypes.PoolParams
 	found := false
+	var have math.Int
 	h.w.Seed(func(ctx sdk.Context) {
+		if h.r.Intn(2) == 0 {
+			now := uint64(ctx.BlockTime().Unix())
+			for _, a := range h.w.Accts {
+				c := h.w.App.CommitmentKeeper.GetCommitments(ctx, a.Addr)
+				for _, ct := range c.CommittedTokens {
+					for _, l := range ct.Lockups {
+						if l.UnlockTimestamp > now && holder == nil {
+							for _, q := range h.std.Pools {
+								if q.ShareDen == ct.Denom {
+									p, holder, have = q, a, ct.Amount
+								}
+							}
+						}
+					}
+				}
+			}
+		}
 		if pool, ok := h.w.App.AmmKeeper.GetPool(ctx, p.Id); ok {
 			pp, found = pool.PoolParams, true
 		}
 	})
 	if !found {
-		return ""
+		return "", nil
 	}
 	what := ""
-	if h.r.Intn(2) == 0 {
+	if holder != nil || h.r.Intn(2) == 0 {
 		pp.UseOracle = !pp.UseOracle
 		what = fmt.Sprintf("pool%d.UseOracle=%v", p.Id, pp.UseOracle)
 	} else {
 		pp.SwapFee = D([]string{"0", "0.001", "0.01", "0.02"}[h.r.Intn(4)])
 		what = fmt.Sprintf("pool%d.SwapFee=%s", p.Id, pp.SwapFee)
 	}
-	if h.govApplyRecorded(&ammtypes.MsgUpdatePoolParams{Authority: h.w.Gov, PoolId: p.Id, PoolParams: pp}) {
-		return what
+	if !h.govApplyRecorded(&ammtypes.MsgUpdatePoolParams{Authority: h.w.Gov, PoolId: p.Id, PoolParams: pp}) {
+		return "", nil
 	}
-	return ""
+	if holder == nil {
+		return what, nil
+	}
+	sh := have.QuoRaw(int64(1 + h.r.Intn(3)))
+	if !sh.IsPositive() {
+		sh = math.OneInt()
+	}
+	return what, &histTx{kind: "amm.exit", f: J{"pool": p.Id, "shareIn": sh.String(), "outDenom": "", "afterPoolShock": true, "signer": holder.Addr.String(), "fee": [][]string{}},
+		req: TxReq{Signer: holder, Msgs: []sdk.Msg{&ammtypes.MsgExitPool{Sender: holder.Addr.String(), PoolId: p.Id, MinAmountsOut: sdk.Coins{}, ShareAmountIn: sh}}}}
 }
 
 // govShock applies one mutated governance message; "" when nothing was applied (validation or the handler refused it).
